@@ -5,6 +5,10 @@ SPEC = {'id': 'C06',
  'modules': ['Snowflake.Props.C06', 'Snowflake.Tie.NameMatcher'],
  'theorems': [('Snowflake.Props.C06', 'Snowflake.NameMatcher.C06.superset_sound'),
               ('Snowflake.Props.C06', 'Snowflake.NameMatcher.C06.superset_sound_rules'),
+              ('Snowflake.Props.C06', 'Snowflake.NameMatcher.C06.superset_refl'),
+              ('Snowflake.Props.C06', 'Snowflake.NameMatcher.C06.superset_trans'),
+              ('Snowflake.Props.C06', 'Snowflake.NameMatcher.C06.superset_complete'),
+              ('Snowflake.Props.C06', 'Snowflake.NameMatcher.C06.superset_iff'),
               ('Snowflake.Props.C06', 'Snowflake.NameMatcher.C06.broker_check_sound'),
               ('Snowflake.Props.C06', 'Snowflake.NameMatcher.C06.broker_rejects_iff'),
               ('Snowflake.Props.C06', 'Snowflake.NameMatcher.C06.proxy_accepts_only_member_and_wss'),
